@@ -227,9 +227,9 @@ def _run_check(prop, tier, seed, replay, workers, t_start, scratch):
         "workers": nwork,
     }
     if level == "model_checking":
-        cov["generator_states"] = int(spec.get("states", 0))
-        cov["states"] = int(spec.get("states", 0)) + int(evals)  # generator states + executed terminal states
-        cov["transitions"] = int(spec.get("transitions", 0)) + int(evals)  # + one decorate-and-execute transition per evaluation
+        cov["generator_states"] = int(spec.get("states", 0)) + int(tags.get("mc_states", 0))
+        cov["states"] = cov["generator_states"] + int(evals)  # generator states + executed terminal states
+        cov["transitions"] = int(spec.get("transitions", 0)) + int(tags.get("mc_transitions", 0)) + int(evals)  # + one decorate-and-execute transition per evaluation
         cov["traces_validated_against_impl"] = int(evals)
     for k, val in spec.get("extra", {}).items():
         cov[k] = _jsonable(val)
